@@ -608,6 +608,11 @@ func rcMonitor(c *suiteCtx, n int, sched []int, s rcSnap) {
 		}
 		if r != fmt.Sprintf("served:%d:fresh", s.cur) {
 			c.violation("C12", fmt.Sprintf("request %d finished as %q instead of served with the refreshed session (generation %d)", i, r, s.cur), in)
+			if strings.HasPrefix(r, "served:") {
+				// the session the rest of the chain (header injection, authorisation) sees is not the stored, refreshed one:
+				// the injected headers carry the rotated-out access token / the pre-refresh claims
+				c.violation("C07", fmt.Sprintf("request %d is forwarded with a session (%q) that is not the authenticated session in the store (generation %d): the injected headers derive from the pre-refresh tokens and claims", i, r, s.cur), in)
+			}
 		}
 	}
 }
